@@ -28,7 +28,7 @@ RULE = ("pipelines {two mapped functions + reduction, 2-D map -> partial reducti
         "(one free-running schedule each, not claimed as schedule coverage)")
 ASSUMPTIONS = ["a submitted task is atomic in the deferred executor; in task-splitting mode tasks are logical threads with scheduling points at user-function entry and storage dump only; in storage-lines mode additionally at every source line executed inside pipefunc/map/_storage_array/ (a line is atomic)", "reference = MapSpec denotation of vmc/gen_map.py",
                "real pools contribute one OS-chosen schedule per configuration"]
-BUDGET = {"quick": 80.0, "thorough": 900.0}
+BUDGET = {"quick": 100.0, "thorough": 1800.0}
 
 S2 = {"i": 2, "j": 2, "u": 2, "k": 2, "w": 2, "m": 2}
 
